@@ -19,6 +19,10 @@ import TbotVerif.Props.ChanCase
 namespace C06
 open Chan Spec C03
 
+/-- kept only until `harness/c06.py` lists the real theorems in `THEOREMS` (it still audits this
+    name); remove together with that edit -/
+theorem placeholder : True := trivial
+
 /-- the fields of the observation record in terms of the operation's run from the cut state -/
 theorem obsOp_fields (op : Op) (r : RunSt) :
     (obsOp op r).1.res = (runOp op { r with st := cut r.st }).1
